@@ -29,6 +29,7 @@ PROFILES = {
     "joins3": prof2("MovesJoinS", 3, [[1, 2], [6, 2]]),
     "joins4": prof2("MovesJoinS", 4, [[1, 2]]),
     "joinh4": prof2("MovesJoinH", 4, [[1, 2], [6, 2]]),
+    "joinz4": prof2("MovesJoinZ", 4, [[1, 2], [6, 2]]),
     "join3": prof2("MovesJoin", 3, [[1, 2], [6, 2]]),
     "union2": prof2("MovesUnion", 2, [[1, 3], [1, 4], [3, 1], [4, 4]]),
     "ref3": prof2("MovesRef", 3, [[1, 2], [6, 2]]),
@@ -87,9 +88,9 @@ CHECKS = {
     "C06": dict(
         level="model_checking",
         clauses=GEN_CLAUSES_SPEC | {"errclass"},
-        phases=dict(quick=[dict(kind="joinnames"), dict(kind="argspace", verbs=["joinrows"]), dict(kind="flatjoin", pre=2), dict(profile="join2"), dict(profile="joins3"), dict(profile="joinh4")],
+        phases=dict(quick=[dict(kind="joinnames"), dict(kind="argspace", verbs=["joinrows"]), dict(kind="flatjoin", pre=2), dict(profile="join2"), dict(profile="joins3"), dict(profile="joinh4"), dict(profile="joinz4")],
                     thorough=[dict(kind="argspace", verbs=["joinrows"], jkeys=[0, 1, 2, 3], jmax=3), dict(kind="joinnames", lu=["a", "b", "a_t2", "b_t2", "a_t2_1", "b_t2_1", "a_t2_2", "a_x"], ru=["a", "b", "c", "a_t2", "b_t2"]),
-                              dict(kind="flatjoin", pre=3, pairs=[(1, 2), (6, 2), (7, 2)]), dict(profile="join2"), dict(profile="join3"), dict(profile="joins4"), dict(profile="joinh4")]),
+                              dict(kind="flatjoin", pre=3, pairs=[(1, 2), (6, 2), (7, 2)]), dict(profile="join2"), dict(profile="join3"), dict(profile="joins4"), dict(profile="joinh4"), dict(profile="joinz4")]),
     ),
     "C07": dict(
         level="model_checking",
